@@ -316,7 +316,18 @@ def make_sims(emg3d, rng):
                 [-200, 200], [-200, 200], [-200, 200]),
                 'cell_numbers': [8, 16], 'min_width_limits': 50.,
                 'max_buffer': 300., 'center_on_edge': True}})
-    return [plain, comp, auto]
+        # grids handed in by the user: one for all / one per pair
+        cgrid = emg3d.TensorMesh([np.ones(8)*50.0, np.ones(4)*100.0,
+                                  np.ones(8)*50.0], (-200, -200, -200))
+        given = emg3d.Simulation(**{
+            **base, 'survey': survey.copy(), 'gridding': 'input',
+            'gridding_opts': cgrid})
+        perpair = emg3d.Simulation(**{
+            **base, 'survey': survey.copy(), 'gridding': 'dict',
+            'gridding_opts': {s_: {f: (cgrid if f == 'f-1' else grid)
+                                   for f in survey.frequencies}
+                              for s_ in survey.sources}})
+    return [plain, comp, auto, given, perpair]
 
 
 # --------------------------------------------------------------------------
